@@ -1,10 +1,13 @@
 import TabulaModel.Model.Nav
 /-
 Model of htmldoc/reader.go (as it is after the C19 fixes): getTextContent,
-getDirectTextContent, isBlockContainer, shouldSkipElement, parseTable /
-parseTableRows / parseTableRow, traverseNodeFiltered with its list context,
+getDirectTextContent, isBlockContainer / isBlockLevel, isInlineContent, emitInlineRun,
+shouldSkipElement, parseTable / parseTableRows / parseTableRow, traverseNodeFiltered
+with its list context and the child loop of a p/div block container (fix 75d57dc: the
+inline runs between the other children become paragraphs; `travM`),
 extractBodyWithMode, TextWithOptions and the element list of DocumentWithOptions;
-plus the compositional specification `atoms`. Core Lean only.
+plus the compositional specification `atoms`. The traversal before fix 75d57dc is kept
+in Model/HtmlOld.lean. Core Lean only.
 -/
 namespace Tabula.Html
 
@@ -48,7 +51,7 @@ def directPiece : Dom → Str
 /-- `getDirectTextContent` (of a node with these children) -/
 def getDirectTextContent (kids : List Dom) : Str := trim (kids.flatMap directPiece)
 
-/-- the tag list of `isBlockContainer` -/
+/-- `isBlockLevel`: the tag list of `isBlockContainer` -/
 def isBlockTag (tag : Str) : Bool :=
   tag == T.div || tag == T.p || tag == T.ul || tag == T.ol || tag == T.table || tag == T.h1 || tag == T.h2 ||
   tag == T.h3 || tag == T.h4 || tag == T.h5 || tag == T.h6 || tag == T.blockquote || tag == T.pre ||
@@ -58,6 +61,22 @@ def isBlockTag (tag : Str) : Bool :=
 /-- `isBlockContainer` (of a node with these children) -/
 def isBlockContainer (kids : List Dom) : Bool :=
   kids.any fun | .elem tag _ _ => isBlockTag tag | _ => false
+
+mutual
+/-- `isInlineContent`: the node neither is nor contains an element `traverseNodeFiltered` handles
+itself (a block-level element, `li`, `code`); a skipped element (script, style, …) counts as
+inline, it contributes no text -/
+def isInline : Dom → Bool
+  | .text _ => true
+  | .other kids => isInlineL kids
+  | .elem tag _ kids =>
+    if isSkip tag then true
+    else if isBlockTag tag || tag == T.li || tag == T.code then false
+    else isInlineL kids
+def isInlineL : List Dom → Bool
+  | [] => true
+  | k :: ks => isInline k && isInlineL ks
+end
 
 /-! ### tables -/
 
@@ -229,6 +248,11 @@ def strayEnter (s : St) : St := { s with inList := true, ordered := false, level
 /-- … and closes it again -/
 def strayExit (s : St) : St := { flushList s with inList := false, items := [] }
 
+/-- `emitInlineRun`: the inline content collected between two block-level children of a block
+container becomes a paragraph, unless it is blank -/
+def emitRun (run : Str) (s : St) : St :=
+  if trim run != [] then (flushList s).emit (.para (trim run)) else s
+
 mutual
 /-- `traverseNodeFiltered`; `p` is `ctx.checker.shouldExclude` (constantly false when the checker is nil),
 `w` says whether body has a single top-level wrapper, `pos` where the node sits -/
@@ -249,7 +273,7 @@ def trav (p : Pos → Dom → Bool) (w : Bool) (pos : Pos) : Dom → St → St
         let s1 := if isP then flushList s else s
         let t := trim (getTextContent (.elem tag attrs kids))
         if t != [] && !isBlockContainer kids then (flushList s1).emit (.para t)
-        else travL p w kp kids s1
+        else travM p w kp kids [] s1
       | .list ord => listExit s (travL p w kp kids (listEnter ord s))
       | .li =>
         if s.inList then liExit (travLi p w kp kids (liHead kids s))
@@ -274,6 +298,14 @@ def travL (p : Pos → Dom → Bool) (w : Bool) (kp : Pos) : List Dom → St →
 def travLi (p : Pos → Dom → Bool) (w : Bool) (kp : Pos) : List Dom → St → St
   | [], s => s
   | k :: ks, s => travLi p w kp ks (if isListElem k then trav p w kp k s else s)
+/-- the child loop of a p/div block container (fix 75d57dc): the text of inline children is
+collected in `run` (`getTextContentRecursive(c, &run)`); before any other child is traversed,
+and at the end, the run is emitted as a paragraph (`emitInlineRun`) -/
+def travM (p : Pos → Dom → Bool) (w : Bool) (kp : Pos) : List Dom → Str → St → St
+  | [], run, s => emitRun run s
+  | k :: ks, run, s =>
+    if isInline k then travM p w kp ks (run ++ textRec k) s
+    else travM p w kp ks [] (trav p w kp k (emitRun run s))
 end
 
 /-- `extractBodyWithMode` started at `body` with exclusion predicate `p` -/
@@ -302,6 +334,9 @@ structure LC where
 
 def LC.enter (lc : LC) : LC := if lc.inList then lc else ⟨true, 0⟩
 
+/-- the paragraph an inline run becomes -/
+def runAtoms (run : Str) : List Atom := if trim run != [] then [.para (trim run)] else []
+
 mutual
 /-- document-order sequence of content atoms of the non-skipped, non-excluded part of a subtree -/
 def atoms (p : Pos → Dom → Bool) (w : Bool) (pos : Pos) (lc : LC) : Dom → List Atom
@@ -318,7 +353,7 @@ def atoms (p : Pos → Dom → Bool) (w : Bool) (pos : Pos) (lc : LC) : Dom → 
         if t != [] then [.heading lvl t] else []
       | .pdiv _ =>
         let t := trim (getTextContent (.elem tag attrs kids))
-        if t != [] && !isBlockContainer kids then [.para t] else atomsL p w kp lc kids
+        if t != [] && !isBlockContainer kids then [.para t] else atomsM p w kp lc kids []
       | .list _ => atomsL p w kp lc.enter kids
       | .li =>
         let text := getDirectTextContent kids
@@ -339,6 +374,14 @@ def atomsL (p : Pos → Dom → Bool) (w : Bool) (kp : Pos) (lc : LC) : List Dom
 def atomsLi (p : Pos → Dom → Bool) (w : Bool) (kp : Pos) (lc : LC) : List Dom → List Atom
   | [] => []
   | k :: ks => (if isListElem k then atoms p w kp lc k else []) ++ atomsLi p w kp lc ks
+/-- the children of a p/div block container: a maximal run of inline children is one paragraph
+(if it is not blank), the other children contribute by their own rules, all in document order;
+`run` is the text of the inline children met since the last other child -/
+def atomsM (p : Pos → Dom → Bool) (w : Bool) (kp : Pos) (lc : LC) : List Dom → Str → List Atom
+  | [], run => runAtoms run
+  | k :: ks, run =>
+    if isInline k then atomsM p w kp lc ks (run ++ textRec k)
+    else runAtoms run ++ atoms p w kp lc k ++ atomsM p w kp lc ks []
 end
 
 /-- the atoms of one parsed element -/
